@@ -8,6 +8,7 @@ use std::io::Write;
 use vmodel::arena::Arena;
 use vmodel::bnf::{Bnf, Sets};
 use vmodel::earley::Earley;
+use vmodel::interp::{Deriv, Mode, Prec, Pred, TreeBuilder, D};
 use vmodel::{Grammar, Rx};
 
 pub struct Job {
@@ -67,6 +68,8 @@ pub struct Model {
     pub has_assert: bool,
     pub has_choice: bool,
     pub has_action: bool,
+    /// R-CONF finds an LL(1) conflict (cascade rule: semantic oracles are then C10's business)
+    pub conflicts: usize,
 }
 
 impl Model {
@@ -80,6 +83,7 @@ impl Model {
             has_assert: g.contains(&|r| matches!(r, Rx::Assert(_))),
             has_choice: g.contains(&|r| matches!(r, Rx::Choice(_))),
             has_action: g.contains(&|r| matches!(r, Rx::Action(_))),
+            conflicts: vmodel::conf::conflicts(&g, &arena, &sets).len(),
             g,
             arena,
             bnf,
@@ -306,8 +310,9 @@ impl<'a> Explorer<'a> {
         let earley = Earley::new(&m.bnf, &m.sets.nullable);
         let want_inv = o.has("C01") || o.has("C02") || o.has("C03");
         let semantic_free = !m.has_pred && !m.has_assert;
-        let want_c04 = o.has("C04") && semantic_free && !m.has_choice && !m.has_true_pred;
-        let want_c06 = o.has("C06") && semantic_free && !m.has_choice && !m.has_true_pred;
+        let conflict_free = m.conflicts == 0;
+        let want_c04 = o.has("C04") && semantic_free && !m.has_choice && !m.has_true_pred && conflict_free;
+        let want_c06 = o.has("C06") && semantic_free && !m.has_choice && !m.has_true_pred && conflict_free;
         let mut full_alpha = self.tok_bytes.clone();
         full_alpha.extend(self.trivia_bytes.iter().copied());
         for (ek, &erule) in entries.iter().enumerate() {
@@ -354,6 +359,134 @@ impl<'a> Explorer<'a> {
             }
             if o.has("C16") {
                 self.c16(ek);
+            }
+            let prec = Prec::new(&m.g, &m.arena, &m.sets);
+            self.semantic(ek, &prec, &earley);
+        }
+    }
+    /// Reference verdict for a trivia-free input under the default answer script: (accepted, derivation if
+    /// uniquely determined). Uses R-PRED for grammars with ordered choice / predicates, otherwise Earley for
+    /// membership and R-DERIV (+ R-PREC) for the derivation.
+    fn reference(&mut self, ek: usize, input: &[u8], prec: &Prec<'_>, earley: &Earley<'_>) -> (Option<bool>, Option<D>) {
+        let m = self.m;
+        let erule = m.g.entries()[ek];
+        let terms = self.terminals(input);
+        let prioritised = m.has_choice || m.has_pred || m.has_true_pred || m.has_assert;
+        if prioritised {
+            if (0..m.g.rules.len()).any(|r| prec.is_pratt(r)) {
+                return (None, None); // R-PRED does not interpret left recursion
+            }
+            let eof = m.bnf.eof[ek];
+            let mut p = Pred::new(&m.g, &m.arena, &m.sets, &terms, eof, &[]);
+            let d = p.parse(erule);
+            if p.overflow {
+                return (None, None);
+            }
+            let _ = Mode::Normal;
+            (Some(d.is_some()), d)
+        } else {
+            let rec = earley.recognise(m.bnf.rule_nt[erule], &terms);
+            if !rec.accepted {
+                return (Some(false), None);
+            }
+            let mut dv = Deriv::new(&m.g, &m.arena, &terms);
+            let all = dv.rule(erule, 0, terms.len());
+            if dv.capped {
+                return (Some(true), None);
+            }
+            let survivors: Vec<&D> = all.iter().filter(|d| prec.ok(d)).collect();
+            if survivors.len() == 1 {
+                (Some(true), Some(survivors[0].clone()))
+            } else {
+                (Some(true), None)
+            }
+        }
+    }
+    fn semantic(&mut self, ek: usize, prec: &Prec<'_>, earley: &Earley<'_>) {
+        let o = self.opts.clone();
+        let m = self.m;
+        let want5 = o.has("C05");
+        let want7 = o.has("C07") && (0..m.g.rules.len()).any(|r| prec.is_pratt(r));
+        let want8 = o.has("C08") && m.has_choice;
+        let want4p = o.has("C04") && !m.has_pred && !m.has_assert && (m.has_choice || m.has_true_pred);
+        if !(want5 || want7 || want8 || want4p) || m.conflicts > 0 {
+            if m.conflicts > 0 {
+                self.tally.nontrivial("skipped_conflict_by_reference");
+            }
+            return;
+        }
+        let names_r = self.subject.rule_names();
+        let names_t = self.subject.token_names();
+        let empty_rule = m.g.rules.iter().any(|r| r.body.is_none());
+        for input in strings(&self.tok_bytes.clone(), o.len) {
+            let script = Script::default();
+            let obs = self.run(ek, &input, &script);
+            if obs.panic.is_some() {
+                continue;
+            }
+            self.tally.outcome(&obs);
+            let (acc, d) = self.reference(ek, &input, prec, earley);
+            let Some(acc) = acc else {
+                self.tally.nontrivial("undecided");
+                continue;
+            };
+            if want4p {
+                self.tally.eval("C04");
+                if acc {
+                    self.tally.nontrivial("C04");
+                }
+                self.tally.record(oracle::c04_membership(&obs, acc), ek, &input, &script, "prioritised reading");
+            }
+            if want8 {
+                self.tally.eval("C08");
+                let abandoned = obs.log.iter().any(|e| e.kind == crate::EvKind::Delete)
+                    || input.len() > 0 && acc;
+                if abandoned {
+                    self.tally.nontrivial("C08");
+                }
+                let mut vs = oracle::c04_membership(&obs, acc);
+                for x in vs.iter_mut() {
+                    x.prop = "C08";
+                }
+                vs.extend(oracle::c08_callbacks(&obs, names_r));
+                self.tally.record(vs, ek, &input, &script, "");
+            }
+            if !acc {
+                continue;
+            }
+            let Some(d) = d else {
+                if want5 || want7 {
+                    self.tally.nontrivial("undecided");
+                }
+                continue;
+            };
+            if (want5 && !empty_rule) || want7 || want8 {
+                let terms = self.terminals(&input);
+                let mut tb = TreeBuilder::new(&m.g, &m.arena, &terms);
+                let et = tb.root(ek, &d);
+                let mut expected = String::new();
+                et.render(&m.g, &mut expected);
+                let actions = tb.actions.clone();
+                if want5 && !empty_rule {
+                    self.tally.eval("C05");
+                    if obs.nodes.iter().filter(|x| matches!(x, crate::ONode::Rule(..))).count() > 1 {
+                        self.tally.nontrivial("C05");
+                    }
+                    let vs = oracle::c05_tree("C05", &obs, &expected, &actions, names_r, names_t);
+                    self.tally.record(vs, ek, &input, &script, "");
+                }
+                if want7 {
+                    self.tally.eval("C07");
+                    if input.len() >= 3 {
+                        self.tally.nontrivial("C07");
+                    }
+                    let vs = oracle::c05_tree("C07", &obs, &expected, &actions, names_r, names_t);
+                    self.tally.record(vs, ek, &input, &script, "");
+                }
+                if want8 && !empty_rule {
+                    let vs = oracle::c05_tree("C08", &obs, &expected, &actions, names_r, names_t);
+                    self.tally.record(vs, ek, &input, &script, "");
+                }
             }
         }
     }
